@@ -34,6 +34,7 @@ RULE = (
 
 
 def prepare(tier):  # pylint: disable=unused-argument
+    corpus.warm_variants()
     workload.pools()
     paths = corpus.class_paths()
     for path in paths:
@@ -60,9 +61,17 @@ def generate(rng, index, tier, extra):
                 'entry': 'parse_immutable', 'trailing': '', 'junk': '00'}
 
 
+GIANT_UNITS = ('mysql', 'handshake-ske', 'handshake-variant', 'handshake-status')
+
+
 def _generate(rng, index, tier, extra):  # pylint: disable=unused-argument
     roll = rng.random()
     junk = bytes(rng.getrandbits(8) for _ in range(rng.choice((1, 2, 5, 16)))).hex()
+    if rng.random() < (0.0005 if tier == 'quick' else 0.0002):
+        # a unit whose 24-bit length field is at (or within 3 of) its maximum, with all of the data present, followed
+        # by the start of the next unit: the largest frames the formats can express
+        return {'kind': 'giant', 'unit': rng.choice(GIANT_UNITS), 'short': rng.choice((0, 0, 1, 2, 3)),
+                'seed': rng.getrandbits(32), 'junk': junk, 'mutable_first': rng.random() < 0.5}
     if roll < 0.02:
         # BER spellings a peer may use that the library never composes: long-form and indefinite lengths.
         # LDAP forbids the indefinite form; accepting it is fine, reporting a wrong length for it is not.
@@ -94,7 +103,7 @@ def _generate(rng, index, tier, extra):  # pylint: disable=unused-argument
             # a receive buffer that already holds a lot of what follows (tens of KiB after the first unit)
             doc['pad'] = [rng.choice((5000, 17000, 18432, 18433, 20000, 40000, 66000, 140000)), rng.getrandbits(32)]
         return doc
-    channel = rng.choice(workload.CHANNELS)
+    channel = rng.choice(workload.STREAM_CHANNELS)
     discards = []
     records = [channel.make(rng, discards) for _ in range(rng.choice((2, 2, 3, 4, 6)))]
     stream_len = sum(len(r) for r in records)
@@ -115,9 +124,47 @@ def execute(doc):
         _exec_dgram(doc, res)
     elif doc['kind'] == 'stream':
         _exec_stream(doc, res)
+    elif doc['kind'] == 'giant':
+        _exec_giant(doc, res)
     else:
         raise core.HarnessError('unknown schedule kind %r' % doc['kind'])
     return res
+
+
+def _exec_giant(doc, res):
+    import random as _random
+    rng = _random.Random(doc['seed'])
+    declared = 2 ** 24 - 1 - doc['short']
+    if doc['unit'] == 'mysql':
+        from cryptoparser.tls.mysql import MySQLRecord
+        cls, framer_name = MySQLRecord, 'mysql'
+        unit = bytes(MySQLRecord(rng.randrange(256), rng.randbytes(declared)).compose())
+    else:
+        from cryptoparser.tls import subprotocol
+        from cryptoparser.tls.extension import TlsCertificateStatusType
+        framer_name = 'tls_handshake'
+        if doc['unit'] == 'handshake-status':
+            message = subprotocol.TlsHandshakeCertificateStatus(TlsCertificateStatusType.OCSP, bytearray(rng.randbytes(declared - 4)))
+            cls = subprotocol.TlsHandshakeCertificateStatus
+        else:
+            message = subprotocol.TlsHandshakeServerKeyExchange(rng.randbytes(declared))
+            cls = subprotocol.TlsHandshakeServerKeyExchange if doc['unit'] == 'handshake-ske' \
+                else subprotocol.TlsHandshakeMessageVariant
+        unit = bytes(message.compose())
+    raw = unit + bytes.fromhex(doc['junk'])
+    n = oracles.probe_c03(cls, raw, res, framer_name if framer_name in framer_mod.FRAMERS else None, framing=True,
+                          junk=bytes.fromhex(doc['junk']))
+    if n is None and not res.violations:
+        res.violation((PROPERTY, 'largest-unit-rejected', cls.__name__), 'a complete unit is accepted whatever its size',
+                      'a composed %s of %d bytes followed by %d more bytes was rejected' % (cls.__name__, len(unit), len(raw) - len(unit)))
+    elif n is not None and n != len(unit) and not res.violations:
+        res.violation((PROPERTY, 'consumed-differs-from-header', cls.__name__), 'n equals the length the frame header declares',
+                      'unit of %d bytes, consumed %d' % (len(unit), n))
+    res.sim_events += 1
+    res.stats['runs.giant'] += 1
+    res.stats['probe.unit_with_24_bit_length_at_its_maximum'] += 1
+    res.sched_sig = ('giant', doc['unit'], doc['short'], n is not None)
+    res.nontrivial = True
 
 
 def _exec_dgram(doc, res):
